@@ -163,6 +163,8 @@ def digest_runs(seeds, profile='DUPLEX'):
     h = hashlib.sha256()
     for sd in seeds:
         g = Gen(sd, profile, [])
+        # what-if branches are part of the run: their traces must be as repeatable as the main line
+        g.branch_cb = lambda b: h.update(json.dumps(enc(b.w.trace[-12:]), sort_keys=True).encode())
         w = g.run()
         h.update(json.dumps(enc(w.trace), sort_keys=True).encode())
         for s in w.steps:
@@ -201,5 +203,12 @@ def main():
     print('hpack differential blocks:', hpack_differential())
     print('codec differential frames:', codec_differential())
     print('determinism seeds (x2 in-process, x2 fresh interpreters):', determinism())
+    from . import branch_audit
+    tot = 0
+    for prop, profile in (('C06', 'ADV'), ('C17', 'CORRUPT'), ('C18', 'ADV')):
+        c, b = branch_audit.audit(prop, profile, 30)
+        assert b == 0, 'a what-if branch differs from the from-scratch replay of its trace (%s %s)' % (prop, profile)
+        tot += c
+    print('what-if branches equal to from-scratch replays of their traces:', tot)
     print('selftest ok')
     return 0
